@@ -906,6 +906,101 @@ fn distance_to_exchange_rate(d: Decimal) -> Decimal {
     (-d).exp()
 }
 
+/// Verification hooks: build a [`MarketGraph`] from explicit edge costs and expose the raw result
+/// of the path search. Compiled only with `--cfg gmsol_verif`.
+#[cfg(gmsol_verif)]
+pub mod verif {
+    use super::*;
+    use gmsol_programs::{bytemuck::Zeroable, gmsol_store::accounts::Market};
+
+    /// A market given by the costs of its two directed edges (`None`: no estimation).
+    #[derive(Debug, Clone)]
+    pub struct EdgeSpec {
+        /// Market token.
+        pub market: Pubkey,
+        /// Long token.
+        pub token_a: Pubkey,
+        /// Short token.
+        pub token_b: Pubkey,
+        /// Cost of swapping `token_a` into `token_b`.
+        pub cost_ab: Option<Decimal>,
+        /// Cost of swapping `token_b` into `token_a`.
+        pub cost_ba: Option<Decimal>,
+    }
+
+    /// Raw search result for one target.
+    #[derive(Debug, Clone)]
+    pub struct SearchResult {
+        /// The rate returned by [`BestSwapPaths::to`].
+        pub rate: Option<Decimal>,
+        /// The path returned by [`BestSwapPaths::to`].
+        pub path: Vec<Pubkey>,
+        /// The distance recorded for the target (the reported rate is `exp(-distance)`).
+        pub distance: Option<Decimal>,
+        /// [`BestSwapPaths::arbitrage_exists`].
+        pub arbitrage_exists: Option<bool>,
+    }
+
+    /// Build a graph whose edges carry exactly the given costs.
+    pub fn graph_from_edges(edges: &[EdgeSpec], max_steps: usize) -> MarketGraph {
+        let mut graph = MarketGraph::with_config(MarketGraphConfig {
+            max_steps,
+            ..Default::default()
+        });
+        for edge in edges {
+            let mut market = Market::zeroed();
+            market.meta.market_token_mint = edge.market;
+            market.meta.index_token_mint = edge.market;
+            market.meta.long_token_mint = edge.token_a;
+            market.meta.short_token_mint = edge.token_b;
+            graph.insert_market_with_options(MarketModel::from_parts(Arc::new(market), 0), false);
+            let state = graph.markets.get(&edge.market).expect("just inserted");
+            let (long_edge, short_edge) = (state.long_edge, state.short_edge);
+            graph
+                .graph
+                .edge_weight_mut(long_edge)
+                .expect("must exist")
+                .estimated = edge.cost_ab.map(|cost| SwapEstimation {
+                ln_exchange_rate: -cost,
+            });
+            graph
+                .graph
+                .edge_weight_mut(short_edge)
+                .expect("must exist")
+                .estimated = edge.cost_ba.map(|cost| SwapEstimation {
+                ln_exchange_rate: -cost,
+            });
+        }
+        graph
+    }
+
+    /// Run [`MarketGraph::best_swap_paths`] and [`BestSwapPaths::to`].
+    pub fn best_path(
+        graph: &MarketGraph,
+        source: &Pubkey,
+        target: &Pubkey,
+        skip_bellman_ford: bool,
+    ) -> crate::Result<SearchResult> {
+        let paths = graph.best_swap_paths(source, skip_bellman_ford)?;
+        let (rate, path) = paths.to(target);
+        let distance = graph
+            .collateral_tokens
+            .get(target)
+            .and_then(|state| paths.distances[graph.to_index(state.ix)]);
+        Ok(SearchResult {
+            rate,
+            path,
+            distance,
+            arbitrage_exists: paths.arbitrage_exists(),
+        })
+    }
+
+    /// The conversion used for the reported rate.
+    pub fn rate_of_distance(distance: Decimal) -> Decimal {
+        distance_to_exchange_rate(distance)
+    }
+}
+
 #[cfg(test)]
 mod tests {
     use std::sync::Arc;
